@@ -9,18 +9,20 @@ H18 = 64800 * NPS
 
 META = {
     "property": "C05",
-    "proof_modules": ["PyodaProofs.C05", "PyodaProofs.C04Spec"],
+    "proof_modules": ["PyodaProofs.C05", "PyodaProofs.C05StartOfDay", "PyodaProofs.C04Spec", "PyodaProofs.C04Zone"],
     "drivers": ["drv_zone"],
     "theorems": [
         "Pyoda.C05.containsLocal_iff", "Pyoda.C05.mapLocal_sound", "Pyoda.C05.mapLocal_complete",
         "Pyoda.C05.mapLocal_count_le_two", "Pyoda.C05.mapLocal_sorted", "Pyoda.C05.mapLocal_gap",
         "Pyoda.C05.instant_roundtrip", "Pyoda.C05.strict_spec", "Pyoda.C05.lenient_spec", "Pyoda.C05.startOfDay_spec_partial", "Pyoda.C05.toy_spec", "Pyoda.C04.dataOK_gives_spec",
+        "Pyoda.C04.zoneOK_gives_spec",
+        "Pyoda.C05.mapLocal_intervals_valid", "Pyoda.C05.no_earlier_on_date", "Pyoda.C05.startOfDay_spec",
     ],
     "trusted_base": [
-        "theorems are over an abstract zone `get` satisfying Partition, Bounded (|wall| <= 18 h) and MinLen (finite intervals >= 36 h); C04 establishes these for the model of the bundled zones (MinLen by evaluation on the current data: shortest interval reported in evidence)",
+        "theorems are over an abstract zone `get` satisfying Partition, Bounded (|wall| <= 18 h) and MinLen (finite intervals >= 36 h); C04 establishes these for the model of the bundled zones from evaluated decidable checks with soundness theorems: dataOK_gives_spec (zones without a recurring tail, check dataOK) and zoneOK_gives_spec (zones with a recurring tail, check zoneOK: stored periods, tail rules through year 9999, seam, 36 h minimum); both are evaluated by the compiled driver on every zone each run (counts in the evidence notes of C04)",
         "domain of the main theorems: local instants at least 18 h inside the ends of time; nearer the ends the model keeps the code's sentinel logic and is compared by correspondence only",
     ],
-    "partial": ["start-of-day: minimality is proved against the two intervals adjacent to local midnight only (startOfDay_spec_partial; full statement kept as startOfDayStatement)", "intervals shorter than 36 h (none in the bundled data) and local instants within 18 h of the ends of time are covered by execution/correspondence, not by the theorems"],
+    "partial": ["intervals shorter than 36 h (none in the bundled data) and local instants within 18 h of the ends of time are covered by execution/correspondence, not by the theorems"],
     "rule": "local instants: local start/end of both neighbours of sampled transitions + {-1s,-1ns,0,+1ns,+1s}, midnights around them, ends of time, seeded random, ISO and Julian/Hebrew calendars; distinct = distinct (zone, local instant); non-trivial = zone has a transition within 2 days of the local instant or the instant is random",
 }
 
